@@ -11,7 +11,7 @@ RULE = ("layouts with 2-3 steps sharing one authorised functionary; for every or
 ASSUMPTIONS = ["signatures present are non-malleable (ground-truth table)"]
 
 
-def gen_case(rng, root):
+def gen_case(rng, root, force=None):
     n = rng.choice([2, 2, 3])
     ch = scen.gen_chain(rng, root, n_steps=n, n_insp=rng.choice([0, 1]), thresholds=(1,), max_funcs=1)
     pool = [k for k in W.pool() if k not in ch.owners]
@@ -20,7 +20,7 @@ def gen_case(rng, root):
     # sometimes the shared functionary is a gpg key: the master is authorised and a signing subkey (or the
     # master itself) signs, so the id in the file name and signature differs from the authorised id
     gpg_signer = None
-    if W.gpg_available() and rng.random() < 0.3:
+    if W.gpg_available() and rng.random() < 0.3 and not force:
         mname = rng.choice(["one_sub", "two_subs", "no_sub"])
         shared = W.gpg_key(mname)
         subs = [x for x in (shared.pub.get("subkeys") or {}) if x in W.SIGNING_SUBKEYS]
@@ -52,7 +52,7 @@ def gen_case(rng, root):
         B["pubkeys"] = [shared.keyid, second.keyid]
         B["links"].append(scen.link_spec(second, rng.choice(["metablock", "dsse"]), B["name"], B["materials"], B["products"]))
     multi = None
-    if n == 3 and rng.random() < 0.4:
+    if n == 3 and rng.random() < 0.4 and not force:
         # the same link presented for *both* other steps in one verification: the earlier of the two also has genuine
         # evidence from a second functionary (so verification gets as far as the later one), the later has the replay only
         c = [x for x in range(n) if x not in (a, b)][0]
@@ -77,22 +77,56 @@ def gen_case(rng, root):
             s_["rules"] = ([["ALLOW", "*"]], [["ALLOW", "*"]])
         ch.closed = notice = False
         keep_own = "second, threshold 2"
-    if how == "rename":
+    extra_variant = None
+    r = rng.random()
+    if force:
+        r = 0.05 if force == "replay_plus_two_subkey_links" else 0.2
+    if multi is None and not gpg_signer and r < 0.3:
+        # TWO functionaries authorised for both steps, both their links of A presented for B, one after the other (B has
+        # no evidence of its own): neither counts
+        shared2 = rng.choice([k for k in pool if k is not shared and k is not second])
+        for s_ in ch.steps:
+            s_["rules"] = ([["ALLOW", "*"]], [["ALLOW", "*"]])
+        ch.closed = notice = False
+        ch.layout_keys[shared2.keyid] = shared2.pub
+        A["keys"], A["pubkeys"] = [shared, shared2], [shared.keyid, shared2.keyid]
+        A["links"] = [scen.link_spec(shared, rng.choice(["metablock", "dsse"]), A["name"], A["materials"], A["products"]),
+                      scen.link_spec(shared2, rng.choice(["metablock", "dsse"]), A["name"], A["materials"], A["products"])]
+        B["keys"], B["pubkeys"], B["threshold"] = [shared, shared2], [shared.keyid, shared2.keyid], rng.choice([1, 1, 2])
+        B["links"] = [dict(A["links"][0]), dict(A["links"][1])]
+        keep_own = "none (two replayed links in a row)"
+        extra_variant = "double_replay"
+        if r < 0.12 and W.gpg_available():
+            # ... and a third functionary - a gpg key - hands in two agreeing links for B, signed with two of its
+            # subkeys: ONE functionary performed B, the step asks for two
+            g = W.gpg_key("two_subs")
+            subs = sorted(x for x in (g.pub.get("subkeys") or {}) if x in W.SIGNING_SUBKEYS)
+            if len(subs) >= 2:
+                ch.layout_keys[g.keyid] = g.pub
+                B["keys"], B["pubkeys"], B["threshold"] = [shared, g], [shared.keyid, g.keyid], 2
+                B["links"] = [dict(A["links"][0])]
+                for sid in subs[:2]:
+                    sk = W.gpg_key("two_subs", sid)
+                    B["links"].append(scen.link_spec(sk, "metablock", B["name"], B["materials"], B["products"], signer=sk, kid=sk.keyid))
+                keep_own = "one gpg functionary with two subkey links, threshold 2, plus a replayed link"
+                extra_variant = "replay_plus_two_subkey_links"
+    if how == "rename" and extra_variant is None:
         A["links"] = []
     desc = {"steps": n, "from": A["name"], "to": B["name"], "how": how, "own_evidence": keep_own,
             "rules_notice": notice, "same_artifacts": same_arts, "fmt": replay_link["fmt"],
             "shared_functionary": "gpg master, signed by %s" % ("a subkey" if gpg_signer is not shared else "the master")
             if gpg_signer else shared.kind,
+            "variant": extra_variant,
             "expected_accept": keep_own == "second" and how == "copy"}
     if multi:
         desc["to"] = multi
     return ch, desc
 
 
-def one_case(rng, res):
+def one_case(rng, res, force=None):
     root = scen.new_root()
     try:
-        ch, desc = gen_case(rng, root)
+        ch, desc = gen_case(rng, root, force)
         # B's file must carry A's signed name: link_spec "name" is what is signed
         scn = scen.build(ch, root, rng)
         scn.params = vcommon.pick_params(rng, desc)
